@@ -6,6 +6,7 @@ CONSTANT BinDomains <- TBin
 CONSTANT BfsDomains <- TBfs
 CONSTANT NavDomains <- None
 INVARIANT OracleInv
+INVARIANT FastOracleInv
 INVARIANT DjRowsDoneInv
 INVARIANT DjWhileInv
 INVARIANT DjFinalInv
